@@ -71,6 +71,29 @@ def mkVoxel (l : List (α × α)) : Except String (List (α × α)) :=
   else if l.any (fun v => decide (v.1 < 0)) then .error "ValueError"
   else .ok (normalise l)
 
+/-- the per-vertex checks of `__init__`'s loop on raw rows, in loop order: row i is tested `len(vertex) != 2` → TypeError, then
+`vertex[0] < 0` → ValueError, before row i+1 is looked at (the first offending row decides the exception) -/
+def rowLadder : List (List α) → Except String (List (α × α))
+  | [] => .ok []
+  | r :: rs =>
+    match r with
+    | [x, y] =>
+      if x < 0 then .error "ValueError"
+      else
+        match rowLadder rs with
+        | .error e => .error e
+        | .ok l => .ok ((x, y) :: l)
+    | _ => .error "TypeError"
+
+/-- `__init__` on raw rows (lists of coordinates of any length): `num_vertices >= 3`, the per-row ladder, the winding
+normalisation -/
+def mkVoxelRows (rows : List (List α)) : Except String (List (α × α)) :=
+  if rows.length < 3 then .error "TypeError"
+  else
+    match rowLadder rows with
+    | .error e => .error e
+    | .ok l => .ok (normalise l)
+
 /-! ### emissivity_from_function -/
 
 /-- `0.5 * abs(x1*y2 + x2*y3 + x3*y1 - x2*y1 - x3*y2 - x1*y3)` -/
@@ -178,6 +201,22 @@ def emissivity (sqrt : α → α) (f : α → α → α) (verts : List (α × α
   match drawN sqrt verts tris cum (area verts) n us with
   | (_, some e) => .error e
   | (ss, none) => if n = 0 then .error "ZeroDivisionError" else .ok (meanOf f ss n, ss)
+
+/-- uniforms consumed by one `emissivity_from_function(f, n)` call -/
+def consumed (tris : List (Nat × Nat × Nat)) (n : Nat) : Nat := n * (if tris.length > 1 then 3 else 2)
+
+/-- `VoxelCollection.emissivities_from_function`: `for i in range(count): out[i] = voxel_i.emissivity_from_function(f, n)`;
+all voxels draw from the one global uniform stream, in collection order; the first exception aborts the call -/
+def emissivities (sqrt : α → α) (f : α → α → α) :
+    List (List (α × α) × List (Nat × Nat × Nat)) → Nat → List α → Except String (List α)
+  | [], _, _ => .ok []
+  | vt :: vs, n, us =>
+    match emissivity sqrt f vt.1 vt.2 n us with
+    | .error e => .error e
+    | .ok er =>
+      match emissivities sqrt f vs n (us.drop (consumed vt.2 n)) with
+      | .error e => .error e
+      | .ok r => .ok (er.1 :: r)
 
 /-! ### VoxelCollection / ToroidalVoxelGrid as a state machine
 
